@@ -23,6 +23,7 @@ import TfelVerif.C05.GenD3p12
 import TfelVerif.C05.GenF
 import TfelVerif.C05.GenW
 import TfelVerif.C05.PropsDeriv
+import Mathlib.Tactic.Tauto
 
 namespace TfelVerif.C05.PropsWrap
 open TfelVerif TfelVerif.Mandel TfelVerif.C05
@@ -74,7 +75,8 @@ theorem N2_w_d_dist (s0 s1 s2 s3 eps h0 h1 h2 h3 g0 g1 g2 g3 : K) :
 theorem N2_w_d_dist_path_iff {F : Type} [Field F] [LinearOrder F] (d d3 : F) (gn : Fns F) (s0 s1 s2 s3 eps h0 h1 h2 h3 g0 g1 g2 g3 m00 m01 m02 m10 m11 m12 m20 m21 m22 f0 f1 f2 e0 e1 e2 : F) :
     Gen.N2_w_d_dist_path d d3 gn s0 s1 s2 s3 eps h0 h1 h2 h3 g0 g1 g2 g3
       ↔ Gen.N2_dval_dist_path d d3 gn m00 m01 m02 m10 m11 m12 m20 m21 m22 (gn.call "vp0" [s0, s1, s2, s3]) (gn.call "vp1" [s0, s1, s2, s3]) (gn.call "vp2" [s0, s1, s2, s3]) f0 f1 f2 e0 e1 e2 eps := by
-  simp only [Gen.N2_w_d_dist_path, Gen.N2_dval_dist_path, and_self, and_assoc]
+  simp only [Gen.N2_w_d_dist_path, Gen.N2_dval_dist_path]
+  constructor <;> intro h <;> tauto
 theorem N2_dfun_eq (m00 m01 m02 m10 m11 m12 m20 m21 m22 l0 l1 l2 eps h0 h1 h2 h3 g0 g1 g2 g3 : K) :
     Gen.N2_dfun_eq_a c c3 fn m00 m01 m02 m10 m11 m12 m20 m21 m22 l0 l1 l2 eps h0 h1 h2 h3 g0 g1 g2 g3
       = dot4 [g0, g1, g2, g3] (apply4 (Gen.N2_dval_eq_all c c3 fn m00 m01 m02 m10 m11 m12 m20 m21 m22 l0 l1 l2 (fn.call "f" [l0]) (fn.call "f" [l1]) (fn.call "f" [l2]) (fn.call "df" [l0]) (fn.call "df" [l1]) (fn.call "df" [l2]) eps) [h0, h1, h2, h3]) := by
@@ -97,7 +99,8 @@ theorem N2_w_d_eq (s0 s1 s2 s3 eps h0 h1 h2 h3 g0 g1 g2 g3 : K) :
 theorem N2_w_d_eq_path_iff {F : Type} [Field F] [LinearOrder F] (d d3 : F) (gn : Fns F) (s0 s1 s2 s3 eps h0 h1 h2 h3 g0 g1 g2 g3 m00 m01 m02 m10 m11 m12 m20 m21 m22 f0 f1 f2 e0 e1 e2 : F) :
     Gen.N2_w_d_eq_path d d3 gn s0 s1 s2 s3 eps h0 h1 h2 h3 g0 g1 g2 g3
       ↔ Gen.N2_dval_eq_path d d3 gn m00 m01 m02 m10 m11 m12 m20 m21 m22 (gn.call "vp0" [s0, s1, s2, s3]) (gn.call "vp1" [s0, s1, s2, s3]) (gn.call "vp2" [s0, s1, s2, s3]) f0 f1 f2 e0 e1 e2 eps := by
-  simp only [Gen.N2_w_d_eq_path, Gen.N2_dval_eq_path, and_self, and_assoc]
+  simp only [Gen.N2_w_d_eq_path, Gen.N2_dval_eq_path]
+  constructor <;> intro h <;> tauto
 theorem N3_dfun_dist (m00 m01 m02 m10 m11 m12 m20 m21 m22 l0 l1 l2 eps h0 h1 h2 h3 h4 h5 g0 g1 g2 g3 g4 g5 : K) :
     Gen.N3_dfun_dist_a c c3 fn m00 m01 m02 m10 m11 m12 m20 m21 m22 l0 l1 l2 eps h0 h1 h2 h3 h4 h5 g0 g1 g2 g3 g4 g5
       = dot6 [g0, g1, g2, g3, g4, g5] (apply6 (Gen.N3_dval_dist_all c c3 fn m00 m01 m02 m10 m11 m12 m20 m21 m22 l0 l1 l2 (fn.call "f" [l0]) (fn.call "f" [l1]) (fn.call "f" [l2]) (fn.call "df" [l0]) (fn.call "df" [l1]) (fn.call "df" [l2]) eps) [h0, h1, h2, h3, h4, h5]) := by
@@ -120,7 +123,8 @@ theorem N3_w_d_dist (s0 s1 s2 s3 s4 s5 eps h0 h1 h2 h3 h4 h5 g0 g1 g2 g3 g4 g5 :
 theorem N3_w_d_dist_path_iff {F : Type} [Field F] [LinearOrder F] (d d3 : F) (gn : Fns F) (s0 s1 s2 s3 s4 s5 eps h0 h1 h2 h3 h4 h5 g0 g1 g2 g3 g4 g5 m00 m01 m02 m10 m11 m12 m20 m21 m22 f0 f1 f2 e0 e1 e2 : F) :
     Gen.N3_w_d_dist_path d d3 gn s0 s1 s2 s3 s4 s5 eps h0 h1 h2 h3 h4 h5 g0 g1 g2 g3 g4 g5
       ↔ Gen.N3_dval_dist_path d d3 gn m00 m01 m02 m10 m11 m12 m20 m21 m22 (gn.call "vp0" [s0, s1, s2, s3, s4, s5]) (gn.call "vp1" [s0, s1, s2, s3, s4, s5]) (gn.call "vp2" [s0, s1, s2, s3, s4, s5]) f0 f1 f2 e0 e1 e2 eps := by
-  simp only [Gen.N3_w_d_dist_path, Gen.N3_dval_dist_path, and_self, and_assoc]
+  simp only [Gen.N3_w_d_dist_path, Gen.N3_dval_dist_path]
+  constructor <;> intro h <;> tauto
 theorem N3_dfun_full (m00 m01 m02 m10 m11 m12 m20 m21 m22 l0 l1 l2 eps h0 h1 h2 h3 h4 h5 g0 g1 g2 g3 g4 g5 : K) :
     Gen.N3_dfun_full_a c c3 fn m00 m01 m02 m10 m11 m12 m20 m21 m22 l0 l1 l2 eps h0 h1 h2 h3 h4 h5 g0 g1 g2 g3 g4 g5
       = dot6 [g0, g1, g2, g3, g4, g5] (apply6 (Gen.N3_dval_full_all c c3 fn m00 m01 m02 m10 m11 m12 m20 m21 m22 l0 l1 l2 (fn.call "f" [l0]) (fn.call "f" [l1]) (fn.call "f" [l2]) (fn.call "df" [l0]) (fn.call "df" [l1]) (fn.call "df" [l2]) eps) [h0, h1, h2, h3, h4, h5]) := by
@@ -143,7 +147,8 @@ theorem N3_w_d_full (s0 s1 s2 s3 s4 s5 eps h0 h1 h2 h3 h4 h5 g0 g1 g2 g3 g4 g5 :
 theorem N3_w_d_full_path_iff {F : Type} [Field F] [LinearOrder F] (d d3 : F) (gn : Fns F) (s0 s1 s2 s3 s4 s5 eps h0 h1 h2 h3 h4 h5 g0 g1 g2 g3 g4 g5 m00 m01 m02 m10 m11 m12 m20 m21 m22 f0 f1 f2 e0 e1 e2 : F) :
     Gen.N3_w_d_full_path d d3 gn s0 s1 s2 s3 s4 s5 eps h0 h1 h2 h3 h4 h5 g0 g1 g2 g3 g4 g5
       ↔ Gen.N3_dval_full_path d d3 gn m00 m01 m02 m10 m11 m12 m20 m21 m22 (gn.call "vp0" [s0, s1, s2, s3, s4, s5]) (gn.call "vp1" [s0, s1, s2, s3, s4, s5]) (gn.call "vp2" [s0, s1, s2, s3, s4, s5]) f0 f1 f2 e0 e1 e2 eps := by
-  simp only [Gen.N3_w_d_full_path, Gen.N3_dval_full_path, and_self, and_assoc]
+  simp only [Gen.N3_w_d_full_path, Gen.N3_dval_full_path]
+  constructor <;> intro h <;> tauto
 theorem N3_dfun_p01 (m00 m01 m02 m10 m11 m12 m20 m21 m22 l0 l1 l2 eps h0 h1 h2 h3 h4 h5 g0 g1 g2 g3 g4 g5 : K) :
     Gen.N3_dfun_p01_a c c3 fn m00 m01 m02 m10 m11 m12 m20 m21 m22 l0 l1 l2 eps h0 h1 h2 h3 h4 h5 g0 g1 g2 g3 g4 g5
       = dot6 [g0, g1, g2, g3, g4, g5] (apply6 (Gen.N3_dval_p01_all c c3 fn m00 m01 m02 m10 m11 m12 m20 m21 m22 l0 l1 l2 (fn.call "f" [l0]) (fn.call "f" [l1]) (fn.call "f" [l2]) (fn.call "df" [l0]) (fn.call "df" [l1]) (fn.call "df" [l2]) eps) [h0, h1, h2, h3, h4, h5]) := by
@@ -166,7 +171,8 @@ theorem N3_w_d_p01 (s0 s1 s2 s3 s4 s5 eps h0 h1 h2 h3 h4 h5 g0 g1 g2 g3 g4 g5 : 
 theorem N3_w_d_p01_path_iff {F : Type} [Field F] [LinearOrder F] (d d3 : F) (gn : Fns F) (s0 s1 s2 s3 s4 s5 eps h0 h1 h2 h3 h4 h5 g0 g1 g2 g3 g4 g5 m00 m01 m02 m10 m11 m12 m20 m21 m22 f0 f1 f2 e0 e1 e2 : F) :
     Gen.N3_w_d_p01_path d d3 gn s0 s1 s2 s3 s4 s5 eps h0 h1 h2 h3 h4 h5 g0 g1 g2 g3 g4 g5
       ↔ Gen.N3_dval_p01_path d d3 gn m00 m01 m02 m10 m11 m12 m20 m21 m22 (gn.call "vp0" [s0, s1, s2, s3, s4, s5]) (gn.call "vp1" [s0, s1, s2, s3, s4, s5]) (gn.call "vp2" [s0, s1, s2, s3, s4, s5]) f0 f1 f2 e0 e1 e2 eps := by
-  simp only [Gen.N3_w_d_p01_path, Gen.N3_dval_p01_path, and_self, and_assoc]
+  simp only [Gen.N3_w_d_p01_path, Gen.N3_dval_p01_path]
+  constructor <;> intro h <;> tauto
 theorem N3_dfun_p02 (m00 m01 m02 m10 m11 m12 m20 m21 m22 l0 l1 l2 eps h0 h1 h2 h3 h4 h5 g0 g1 g2 g3 g4 g5 : K) :
     Gen.N3_dfun_p02_a c c3 fn m00 m01 m02 m10 m11 m12 m20 m21 m22 l0 l1 l2 eps h0 h1 h2 h3 h4 h5 g0 g1 g2 g3 g4 g5
       = dot6 [g0, g1, g2, g3, g4, g5] (apply6 (Gen.N3_dval_p02_all c c3 fn m00 m01 m02 m10 m11 m12 m20 m21 m22 l0 l1 l2 (fn.call "f" [l0]) (fn.call "f" [l1]) (fn.call "f" [l2]) (fn.call "df" [l0]) (fn.call "df" [l1]) (fn.call "df" [l2]) eps) [h0, h1, h2, h3, h4, h5]) := by
@@ -189,7 +195,8 @@ theorem N3_w_d_p02 (s0 s1 s2 s3 s4 s5 eps h0 h1 h2 h3 h4 h5 g0 g1 g2 g3 g4 g5 : 
 theorem N3_w_d_p02_path_iff {F : Type} [Field F] [LinearOrder F] (d d3 : F) (gn : Fns F) (s0 s1 s2 s3 s4 s5 eps h0 h1 h2 h3 h4 h5 g0 g1 g2 g3 g4 g5 m00 m01 m02 m10 m11 m12 m20 m21 m22 f0 f1 f2 e0 e1 e2 : F) :
     Gen.N3_w_d_p02_path d d3 gn s0 s1 s2 s3 s4 s5 eps h0 h1 h2 h3 h4 h5 g0 g1 g2 g3 g4 g5
       ↔ Gen.N3_dval_p02_path d d3 gn m00 m01 m02 m10 m11 m12 m20 m21 m22 (gn.call "vp0" [s0, s1, s2, s3, s4, s5]) (gn.call "vp1" [s0, s1, s2, s3, s4, s5]) (gn.call "vp2" [s0, s1, s2, s3, s4, s5]) f0 f1 f2 e0 e1 e2 eps := by
-  simp only [Gen.N3_w_d_p02_path, Gen.N3_dval_p02_path, and_self, and_assoc]
+  simp only [Gen.N3_w_d_p02_path, Gen.N3_dval_p02_path]
+  constructor <;> intro h <;> tauto
 theorem N3_dfun_p12 (m00 m01 m02 m10 m11 m12 m20 m21 m22 l0 l1 l2 eps h0 h1 h2 h3 h4 h5 g0 g1 g2 g3 g4 g5 : K) :
     Gen.N3_dfun_p12_a c c3 fn m00 m01 m02 m10 m11 m12 m20 m21 m22 l0 l1 l2 eps h0 h1 h2 h3 h4 h5 g0 g1 g2 g3 g4 g5
       = dot6 [g0, g1, g2, g3, g4, g5] (apply6 (Gen.N3_dval_p12_all c c3 fn m00 m01 m02 m10 m11 m12 m20 m21 m22 l0 l1 l2 (fn.call "f" [l0]) (fn.call "f" [l1]) (fn.call "f" [l2]) (fn.call "df" [l0]) (fn.call "df" [l1]) (fn.call "df" [l2]) eps) [h0, h1, h2, h3, h4, h5]) := by
@@ -212,7 +219,8 @@ theorem N3_w_d_p12 (s0 s1 s2 s3 s4 s5 eps h0 h1 h2 h3 h4 h5 g0 g1 g2 g3 g4 g5 : 
 theorem N3_w_d_p12_path_iff {F : Type} [Field F] [LinearOrder F] (d d3 : F) (gn : Fns F) (s0 s1 s2 s3 s4 s5 eps h0 h1 h2 h3 h4 h5 g0 g1 g2 g3 g4 g5 m00 m01 m02 m10 m11 m12 m20 m21 m22 f0 f1 f2 e0 e1 e2 : F) :
     Gen.N3_w_d_p12_path d d3 gn s0 s1 s2 s3 s4 s5 eps h0 h1 h2 h3 h4 h5 g0 g1 g2 g3 g4 g5
       ↔ Gen.N3_dval_p12_path d d3 gn m00 m01 m02 m10 m11 m12 m20 m21 m22 (gn.call "vp0" [s0, s1, s2, s3, s4, s5]) (gn.call "vp1" [s0, s1, s2, s3, s4, s5]) (gn.call "vp2" [s0, s1, s2, s3, s4, s5]) f0 f1 f2 e0 e1 e2 eps := by
-  simp only [Gen.N3_w_d_p12_path, Gen.N3_dval_p12_path, and_self, and_assoc]
+  simp only [Gen.N3_w_d_p12_path, Gen.N3_dval_p12_path]
+  constructor <;> intro h <;> tauto
 
 /-- example of transfer: the functions overload on the `dist` branch acts as the Daleckii–Krein form with
 `Θ_ii = f'(λ_i)`, `Θ_ij = (f λ_i − f λ_j)/(λ_i − λ_j)` -/
@@ -226,7 +234,7 @@ theorem N3_dfun_dist_dk [CharZero K] (hc : c * c = 2) (m00 m01 m02 m10 m11 m12 m
               ((fn.call "f" [l0] - fn.call "f" [l1]) / (l0 - l1)) ((fn.call "f" [l0] - fn.call "f" [l2]) / (l0 - l2))
               ((fn.call "f" [l1] - fn.call "f" [l2]) / (l1 - l2)))
             (M3.sym h00 h11 h22 h01 h02 h12))) := by
-  rw [N3_dfun_dist, ← PropsDeriv.N3_dval_dist c c3 fn hc]
+  rw [N3_dfun_dist, ← PropsDeriv.N3_dval_dist c c3 fn hc (eps := eps)]
   simp only [M3.mandel3, M3.sym]
 
 end TfelVerif.C05.PropsWrap
